@@ -324,6 +324,18 @@ func completeOnce(s *system, pt point, seedIdx int) (class, detail string) {
 			return "rejected", fmt.Sprintf("Verify (%s) returned false for an honestly generated proof\nstatement: %s\nproof: %s", side.name, describe(b.pubPlain), describe(po.proof))
 		}
 	}
+	// history: a SECOND proof from the same statement and witness OBJECTS (the same statement proved to another
+	// verifier, or again after a failure) must be as good as the first: proving must not consume its inputs
+	po2 := proveSt(s, b, pt, seedIdx, "prove-again", baseCtx)
+	if po2.panicked {
+		return "second-proof:prover-panic:" + po2.fr, "NewProof panicked when called a second time on the same inputs: " + po2.msg
+	}
+	if isNilProof(po2.proof) {
+		return "second-proof:no-proof", "the prover returned nil when called a second time on the same inputs"
+	}
+	if v := verifySt(s, baseCtx, b.pubPlain, po2.proof); v.panicked || !v.ok {
+		return "second-proof:rejected", fmt.Sprintf("a second proof generated from the same statement and witness objects does not verify (the first one did): the prover modifies its inputs\nstatement: %s", describe(b.pubPlain))
+	}
 	return "", ""
 }
 
@@ -690,6 +702,21 @@ func units(sys []*system) []unit {
 			for _, pt := range completenessPoints(s) {
 				for sd := 0; sd < seeds; sd++ {
 					us = append(us, unit{s: s, kind: "completeness", pt: pt, seed: sd})
+				}
+			}
+			// Pedersen parameters over another modulus than the verifier's Paillier modulus: whether a confusion of
+			// the two moduli shows depends on the responses, so several challenges
+			for _, c := range s.conf {
+				if c.name != "aux" {
+					continue
+				}
+				pt := merge(witDiag(s, "rand"), confDefault(s))
+				pt["aux"] = "foreign"
+				for _, k := range []string{"P", "V"} {
+					q := merge(pt, point{"keys": k})
+					for sd := 0; sd < midPlainSeeds; sd++ {
+						us = append(us, unit{s: s, kind: "completeness", pt: q, seed: 200 + sd})
+					}
 				}
 			}
 			// witnesses that may be any plaintext: mid- and top-of-range magnitudes, several challenges each
